@@ -3,6 +3,7 @@
   Model: HapModel/Frame.lean (`encrypt`, `Tx.write`, `Tx.step` = write-then-install).
 -/
 import Proofs.Frame
+import Proofs.Event
 import HapModel.Gen.Crypto
 namespace Hap.Frame
 open Hap
@@ -101,7 +102,16 @@ theorem C05_atomic_messages (K : Nat → Aead) (ms : List Msg) (t : Tx) :
       simp only [Tx.run, List.getElem_cons_succ]
       exact h2 j (by simpa using hj) (by simpa [Tx.run] using hj')
 
+/-- An EVENT message is self-delimiting: the declared Content-Length is the byte length of the
+    body, so a reader that follows the announced length recovers exactly the body and is left at
+    the first byte of whatever was written next (the following response or event) — for every
+    body (any bytes, multi-byte UTF-8 included) and every continuation of the stream. -/
+theorem C05_event_wellformed (body rest : Bytes) :
+    Hap.Event.readEvent (Hap.Event.createEvent body ++ rest) = some (body, rest) :=
+  Hap.Event.readEvent_createEvent body rest
+
 /-! non-vacuity -/
+example : Hap.Event.decimal 1024 = [49, 48, 50, 52] := by decide
 example : (Tx.run mockAead {} [.response [1] false, .response [2] true, .event [3], .delayed [4]]).map Out.isPlain
     = [true, true, false, false] := by decide +kernel
 example : (blocks (List.replicate 2049 0)).map List.length = [1024, 1024, 1] := by decide +kernel
